@@ -338,6 +338,94 @@ func runC10(c *Ctx) {
 		}
 		c.Check(nLits >= 1, r4, idxfShort+":iterator-literals", 0, itoa(nLits)+" iterator literals that view at least two of the bucket tables examined")
 	}
+
+	// A search key's successor ("the next prefix of this length") computed by incrementing one byte of the key is wrong
+	// for 0xff: the byte wraps to 0x00 and the successor sorts before the key, so the range it bounds is empty. In the
+	// index readers a byte element is incremented only under a test of that byte against 0xff (or the carry is handled:
+	// a test of the byte against 0 follows).
+	const r5 = "key-successor-carries"
+	n5 := 0
+	for _, fi := range p.FuncsIn(idxfShort) {
+		if fi.Decl.Body == nil || p.isTestFile(fi.Decl.Pos()) {
+			continue
+		}
+		pinfo := fi.Pkg.TypesInfo
+		k := 0
+		var walk func(n ast.Node, conds []ast.Expr)
+		walk = func(n ast.Node, conds []ast.Expr) {
+			switch v := n.(type) {
+			case nil:
+				return
+			case *ast.IfStmt:
+				cs := append(conds[:len(conds):len(conds)], v.Cond)
+				walk(v.Body, cs)
+				walk(v.Else, cs)
+				return
+			case *ast.ForStmt:
+				cs := conds
+				if v.Cond != nil {
+					cs = append(conds[:len(conds):len(conds)], v.Cond)
+				}
+				walk(v.Body, cs)
+				return
+			case *ast.BlockStmt:
+				for i, s := range v.List {
+					if inc, ok := s.(*ast.IncDecStmt); ok && inc.Tok == token.INC {
+						if ix, ok := unparen(inc.X).(*ast.IndexExpr); ok {
+							if tv := pinfo.Types[ix]; tv.Type != nil {
+								if b, ok := tv.Type.Underlying().(*types.Basic); ok && b.Kind() == types.Uint8 {
+									k++
+									n5++
+									c.Analysed(fi)
+									guarded := false
+									mentions255or0 := func(e ast.Node, want string) bool {
+										found := false
+										ast.Inspect(e, func(m ast.Node) bool {
+											if x, ok := m.(ast.Expr); ok {
+												if cv := pinfo.Types[x]; cv.Value != nil && cv.Value.ExactString() == want {
+													found = true
+												}
+											}
+											return !found
+										})
+										return found
+									}
+									for _, cnd := range conds {
+										if mentions255or0(cnd, "255") {
+											guarded = true
+										}
+									}
+									// carry handled afterwards: a following statement tests the byte against 0
+									for _, later := range v.List[i+1:] {
+										if ifs, ok := later.(*ast.IfStmt); ok && mentions255or0(ifs.Cond, "0") && usesObj(pinfo, ifs.Cond, objOf(pinfo, ix.X)) {
+											guarded = true
+										}
+									}
+									c.Check(guarded, r5, fi.Name()+":"+exprString(inc.X)+"++"+ifStr(k > 1, "#"+itoa(k)), inc.Pos(), orStr(ifStr(!guarded, "a byte of a key is incremented with no test for 0xff and no carry: for a key ending in 0xff the successor wraps to 0x00 and sorts before the key, so the range it is meant to bound is empty (prefixes such as 12ff find nothing)"),
+										"the increment is guarded against 0xff or its carry is handled"))
+								}
+							}
+						}
+					}
+					walk(s, conds)
+				}
+				return
+			case *ast.SwitchStmt:
+				walk(v.Body, conds)
+				return
+			case *ast.CaseClause:
+				for _, s := range v.Body {
+					walk(s, conds)
+				}
+				return
+			}
+		}
+		walk(fi.Decl.Body, nil)
+	}
+	if n5 == 0 {
+		c.Hold(r5, idxfShort+":no-byte-increment", 0, "no index reader computes a key by incrementing one of its bytes")
+	}
+	c.Floor(r5, 1)
 }
 
 func utoa(u uint64) string {
